@@ -124,7 +124,8 @@ inductive LTr (s : State) (t : Tid) : Event → Thr → Prop
         { s.thr t with r := r, old := if s.queue.isEmpty then { (s.thr t).old with ne := false } else (s.thr t).old, loc := .nDeqRel }
   | wRmCasFail (r : Rid) (exp new obs : Nat) (h : (s.thr t).loc = .wRmCas) (hr : r = (s.thr t).r) :
       LTr s t (.recCas t .wRmCas r exp new obs false) { s.thr t with loc := .wRmLd }
-  | sRcCasFail (site : RSite) (r : Rid) (exp new obs : Nat) (h : (s.thr t).loc = .sRcCas) :
+  | sRcCasFail (site : RSite) (r : Rid) (exp new obs : Nat) (h : (s.thr t).loc = .sRcCas)
+      (hr : (s.thr t).todo.head? = some r) :
       LTr s t (.recCas t site r exp new obs false) { s.thr t with loc := .sRcLd }
   | wwLd (obs : Nat) (f : Rid) (rest : List Rid) (h : (s.thr t).loc = .wwMuLd) (hl : (s.thr t).list = f :: rest) :
       LTr s t (.muLd t .wwLd obs)
